@@ -2,7 +2,7 @@
 from .C02 import e2_jobs, META as _M
 
 META = dict(_M)
-CLASSES = ["contracts.C08_all:ForwardModel", "contracts.C08_all:CircuitZeroBranchUnderC08"]
+CLASSES = ["contracts.C08_all:ForwardModel", "contracts.C08_all:CircuitZeroBranchUnderC08", "contracts.C08_all:FullRankIllConditioned"]
 
 
 def jobs(tier, seed):
